@@ -101,7 +101,12 @@ def check(run):
 
     rn = fx.fn1(S + '::run')
     run.touch(rn)
-    for f in calls(rn, 'high_resolution_timer::fire'):
+    fires_run = q.flat_calls(rn, lambda g, c: (q.callee_name(c) or '').endswith('high_resolution_timer::fire'))
+    if not fires_run:
+        run.broke('simulation::run no longer reaches high_resolution_timer::fire (anchor vanished)')
+    for fx_ in fires_run:
+        f, rn = fx_.call, fx_.owner      # the firing loop may have been split off into a helper of run()
+        run.touch(rn)
         er = [c for op, c in q.container_calls(rn, 'm_timer_queue') if op in ('erase', 'pop_front', 'pop_back')]
         run.check(q.any_precedes(rn, er, f), 'R4', 'dequeue-before-fire', S + '::run', rn.loc(f), 'run() fires a timer it has not removed from the queue', 'erase precedes fire')
         for e in er:
